@@ -134,6 +134,33 @@ def mutations(text: str, version: str, rng: random.Random, per_kind: int = 3):
             at = k if variant in ('line', 'old-lexicon') else k + 1
             new[at:at] = text
             emit('comment', 'Lexicon', variant, new)
+    # the same characters written as character references (decimal, hexadecimal with lower-case
+    # and with upper-case digits) in the identifying attributes of lexicons and <Extends>
+    def refs(style):
+        new = list(lines)
+        done = 0
+        for t in tags:
+            k, ind, name, attrs, sc, rest = t
+            if name not in ('Lexicon', 'LexiconExtension', 'Extends', 'Requires'):
+                continue
+            def enc(m):
+                nonlocal done
+                val = m.group(2)
+                if '&' in val:          # (already holds references: left alone)
+                    return m.group(0)
+                for j, ch in enumerate(val):
+                    h = format(ord(ch), 'x')
+                    if ch not in '&<>"\'' and any(d in 'abcdef' for d in h):
+                        done += 1
+                        r_ = {'dec': f'&#{ord(ch)};', 'hex': f'&#x{h};', 'HEX': f'&#x{h.upper()};'}[style]
+                        return f' {m.group(1)}="{val[:j]}{r_}{val[j + 1:]}"'
+                return m.group(0)
+            new[k] = re.sub(r' (id|version|label)="([^"]*)"', enc, new[k])
+        return new if done else None
+    for style in ('dec', 'hex', 'HEX'):
+        new = refs(style)
+        if new:
+            emit('charref', 'Lexicon', style, new)
     # header
     emit('no_xmldecl', '~', '~', lines[1:])
     emit('no_doctype', '~', '~', [lines[0]] + lines[2:])
